@@ -5,7 +5,8 @@ For every kept seeded change (seeded/*/patch.diff) and hand-made mutant (mutants
 scratch export of /repo HEAD (outside /repo and /verif, removed at once), run all 20 checks with `vchk -keys`
 and record which properties report a violated obligation that is not violated on the clean tree.
 Nothing is executed from the subject: this is the checker run on a variant of the source.
-usage: tools/mkwitnesses.py [-j N]
+usage: tools/mkwitnesses.py [-j N] [--only <glob under /verif, e.g. "seeded/r7-*/patch.diff">]
+       with --only, only the matching patches are run and their rows are merged into the existing tables
 """
 import json, os, subprocess, sys, tempfile, shutil, glob
 from concurrent.futures import ThreadPoolExecutor
@@ -74,6 +75,10 @@ def main():
     shutil.rmtree(scr, ignore_errors=True)
     shutil.rmtree(ev, ignore_errors=True)
     patches = sorted(glob.glob("seeded/*/patch.diff", root_dir=V)) + sorted(glob.glob("mutants/*.diff", root_dir=V))
+    only = None
+    if "--only" in sys.argv:
+        only = set(glob.glob(sys.argv[sys.argv.index("--only") + 1], root_dir=V))
+        patches = [p for p in patches if p in only]
     with ThreadPoolExecutor(j) as ex:
         res = list(ex.map(lambda p: one(p, base), patches))
     wits, rows = [], []
@@ -91,6 +96,16 @@ def main():
         first = "; ".join("%s: %s" % (k, detail[k][0]) for k in ids[:3])
         own = "yes" if target in ids else ("n/a" if not target else "NO")
         rows.append((patch, target, ", ".join(ids) if ids else "— (not detected)", own, first))
+    if only is not None:
+        old = [w for w in json.load(open(os.path.join(V, "tables", "witnesses.json"))) if w["patch"] not in only]
+        wits = sorted(old + wits, key=lambda w: (not w["patch"].startswith("seeded/"), w["patch"]))
+        oldrows = []
+        for l in open(os.path.join(V, "seeded", "INDEX.md")):
+            if l.startswith("| seeded/") or l.startswith("| mutants/"):
+                c = [x.strip() for x in l.strip().strip("|").split(" | ")]
+                if c[0] not in only:
+                    oldrows.append(tuple(c[:4] + [" | ".join(c[4:]).replace("\\|", "|")]))
+        rows = sorted(oldrows + rows, key=lambda r: (not r[0].startswith("seeded/"), r[0]))
     json.dump(wits, open(os.path.join(V, "tables", "witnesses.json"), "w"), indent=1)
     with open(os.path.join(V, "seeded", "INDEX.md"), "w") as f:
         f.write("# Seeded changes and mutants: which checks report a new violation\n\n")
